@@ -437,9 +437,12 @@ def rule_subseq_search(ctx, m):
     ok = len(pushes) == 2 and heapv is not None and all(c[2][0] == heapv for _s, c in pushes)
     want = ('call', ('var', 'min'), (thr, ('un', 'neg', ('idx', ('idx', heapv, ('num', 0)), ('num', 0)))), ())
     for s, c in pushes:
-        blk = _block_of(loop.body, s)
-        i = blk.index(s)
-        nxt = blk[i + 1] if i + 1 < len(blk) else None
+        # the statements executed after the push inside this iteration: the rest of its block, then of the enclosing blocks
+        nxt = None
+        for t in _continuation(loop.body, s):
+            if any(x == thr for e in stmt_exprs(t) for x in walk_expr(e)) or sub_blocks(t):
+                nxt = t
+                break
         ok = ok and nxt is not None and nxt.k == 'assign' and nxt.target == thr and nxt.value == want
     ctx.check(ok, 'R-PATH', file, 'SubsequenceSearch.align', 'threshold follows heap root',
               'after every heappush/heappushpop the running threshold must be tightened to min(max_dist, -h[0][0])', loop.line)
@@ -494,6 +497,20 @@ def rule_subseq_search(ctx, m):
     ctx.check(bool(setk), 'R-PATH', file, 'SubsequenceSearch.align', 'k recorded', 'a fresh search must record the k it was computed for (self.k = k)', al.line)
 
 
+def _continuation(stmts, target):
+    """Statements that follow `target` on the way out of the nested blocks of stmts (rest of its block, rest of the parent block, ...)."""
+    for i, s in enumerate(stmts):
+        if s is target:
+            return list(stmts[i + 1:])
+        for b in sub_blocks(s):
+            if any(x is target for x in walk_stmts(b)):
+                inner = _continuation(b, target)
+                if s.k in ('for', 'foreach', 'while', 'loop'):
+                    return inner
+                return inner + list(stmts[i + 1:])
+    return []
+
+
 def _block_of(stmts, target):
     for s in stmts:
         if s is target:
@@ -539,10 +556,13 @@ def rule_hierarchical(ctx, m):
     dl = [s for s in loop.body if s.k == 'expr' and s.value == ('call', ('attr', ('var', 'deleted'), 'add'), (i2,), ())]
     ctx.check(len(dl) == 1, 'R-PATH', file, 'Hierarchical.fit', 'merged series retired', 'each merge must add i2 to `deleted` exactly once', loop.line)
     # recomputation of the minimum from the same matrix after the blanking, on the path back to the guard
-    mv = [s for s in loop.body if s.k == 'assign' and s.target == ('var', 'min_value')]
-    ok = bool(mv) and mv[-1].value == ('call', ('attr', ('var', 'np'), 'min'), (('var', 'dists'),), ()) and all(mv[-1].line > s.line for s in stores)
-    mi = [s for s in walk_stmts(loop.body) if s.k == 'assign' and s.target == ('var', 'min_idxs')]
-    ok = ok and bool(mi) and mi[-1].value == ('call', ('attr', ('var', 'np'), 'argwhere'), (('bin', '==', ('var', 'dists'), ('var', 'min_value')),), ()) and mi[-1].line > mv[-1].line
+    order = {id(t): k_ for k_, t in enumerate(walk_stmts(loop.body))}          # execution order inside one iteration (expanded helpers keep their own line numbers)
+    gv = c[2][2] if c[0] == 'bin' and c[2][0] == 'bin' and c[2][2][0] == 'var' else ('var', 'min_value')      # the guard variable
+    mv = [s for s in loop.body if s.k == 'assign' and s.target == gv]
+    ok = bool(mv) and mv[-1].value == ('call', ('attr', ('var', 'np'), 'min'), (('var', 'dists'),), ()) and all(order[id(mv[-1])] > order[id(s)] for s in stores)
+    mi = [s for s in walk_stmts(loop.body) if s.k == 'assign' and s.target[0] == 'var'
+          and s.value == ('call', ('attr', ('var', 'np'), 'argwhere'), (('bin', '==', ('var', 'dists'), gv),), ())]
+    ok = ok and bool(mi) and order[id(mi[-1])] > order[id(mv[-1])]
     ctx.check(ok, 'R-PATH', file, 'Hierarchical.fit', 'minimum recomputed', 'after blanking, min_value = np.min(dists) and the argmin candidates must be recomputed from the same matrix before the guard is re-evaluated', loop.line)
     # bookkeeping
     txt = [fmt(x) for s in loop.body for x in ([s.cond] if s.k == 'if' else [])]
@@ -556,8 +576,10 @@ def rule_hierarchical(ctx, m):
     # epilogue: singletons
     epi = f.body[f.body.index(loop) + 1:]
     ok = False
+    nlen = ('call', ('var', 'len'), (('var', 'series'),), ())
+    nvars = {t.target for t in f.body if t.k == 'assign' and t.target[0] == 'var' and t.value == nlen}
     for s in epi:
-        if s.k == 'for' and s.hi == ('call', ('var', 'len'), (('var', 'series'),), ()):
+        if s.k == 'for' and s.lo == ('num', 0) and (s.hi == nlen or s.hi in nvars):
             for t in s.body:
                 if t.k == 'if' and t.cond == ('bin', 'notin', ('var', s.var), ('var', 'deleted')):
                     for u in t.then:
@@ -573,13 +595,34 @@ def rule_hierarchical(ctx, m):
     hook = pm.funcs.get('HierarchicalTree.fit.<locals>.merge_hook')
     if hook is None:
         raise AnalysisError('anchor vanished: merge hook of HierarchicalTree.fit')
-    ap = [s for s in walk_stmts(hook.body) if s.k == 'expr' and s.value[0] == 'call' and s.value[1] == ('attr', ('attr', ('var', 'self'), 'linkage'), 'append')]
-    ok = len(ap) == 1 and ap[0].value[2][0][0] == 'tuple' and ap[0].value[2][0][1][:3] == (('idx', ('var', 'new_nodes'), ('var', 'from_idx')), ('idx', ('var', 'new_nodes'), ('var', 'to_idx')), ('var', 'distance'))
-    nn = [s for s in hook.body if s.k == 'assign' and s.target == ('idx', ('var', 'new_nodes'), ('var', 'to_idx')) and s.value == ('var', 'new_idx')]
-    rt = [s for s in hook.body if s.k == 'assign' and s.target == ('idx', ('var', 'new_nodes'), ('var', 'from_idx')) and s.value == ('none',)]
-    ni = [s for s in hook.body if s.k == 'assign' and s.target == ('var', 'new_idx')]
-    ok_ni = bool(ni) and fmt(ni[0].value) == '(len(self.series) + len(self.linkage))' and (not ap or ni[0].line < ap[0].line)
-    ctx.check(ok and len(nn) == 1 and len(rt) == 1 and ok_ni, 'R-PATH', file, 'HierarchicalTree.fit', 'linkage hook',
+    # decided on one symbolic pass over the hook: the row appended, then the two updates of the node map, in that order
+    from ..symexec import Exec, Env
+    hex_ = Exec()
+    hex_.run(hook.body, Env())
+    fa, ta, da = [('var', a) for a in hook.args[:3]]
+    lk = ('attr', ('var', 'self'), 'linkage')
+    apps = [k_ for k_, e in enumerate(hex_.events) if e[0] == 'expr' and e[2][0] == 'call' and e[2][1] == ('attr', lk, 'append')]
+    sts = [(k_, e) for k_, e in enumerate(hex_.events) if e[0] == 'store' and e[2][0] == 'idx' and e[2][1][0] == 'var']
+    ok = len(apps) == 1
+    ok_ni = False
+    if ok:
+        row = hex_.events[apps[0]][2][2][0]
+        nm = sts[0][1][2][1] if sts else None          # the node map
+        ok = row[0] == 'tuple' and row[1][:3] == (('idx', nm, fa), ('idx', nm, ta), da)
+        want_id = ('bin', '+', ('call', ('var', 'len'), (('attr', ('var', 'self'), 'series'),), ()), ('call', ('var', 'len'), (lk,), ()))
+        nn = [(k_, e) for k_, e in sts if e[2] == ('idx', nm, ta) and e[3] == want_id]
+        rt = [(k_, e) for k_, e in sts if e[2] == ('idx', nm, fa) and e[3] == ('none',)]
+        ok = ok and len(nn) == 1 and len(rt) == 1 and len(sts) == 2 and all(k_ > apps[0] for k_, e in sts)
+        # the new id is n + len(linkage) *before* the row is appended: its definition precedes the append
+        order = {id(t): k_ for k_, t in enumerate(walk_stmts(hook.body))}
+        ap_s = hex_.events[apps[0]][3]
+        nid = [t for t in walk_stmts(hook.body) if t.k == 'assign' and t.value == want_id]
+        ok_ni = bool(nn) and (len(nid) == 1 and order[id(nid[0])] < order[id(ap_s)])
+        # reads of the node map that feed the row precede the updates (locals holding them are defined before the stores)
+        st_s = [e[4] for k_, e in sts]
+        rd = [t for t in walk_stmts(hook.body) if t.k == 'assign' and t.target[0] == 'var' and t.value[0] == 'idx' and t.value[1] == nm]
+        ok = ok and all(order[id(t)] < min(order[id(x)] for x in st_s) for t in rd)
+    ctx.check(ok and ok_ni, 'R-PATH', file, 'HierarchicalTree.fit', 'linkage hook',
               'each merge must append exactly one row (node(from), node(to), distance, .), map to_idx to the new node id n + len(linkage) and retire from_idx', hook.line)
     inst = [s for s in tfit.body if s.k == 'assign' and s.target == ('attr', ('attr', ('var', 'self'), '_model'), 'merge_hook')]
     ctx.check(len(inst) == 2 and inst[0].value == ('var', 'merge_hook'), 'R-PATH', file, 'HierarchicalTree.fit', 'hook installed and restored', 'the linkage hook must be installed for the fit and the previous hook restored afterwards', tfit.line)
@@ -591,15 +634,36 @@ def rule_hierarchical(ctx, m):
     ok = False
     n = ('call', ('var', 'len'), (('var', 'series'),), ())
     if loop:
+        from .. import sym as _sym
+        from ..symexec import subst_expr
         lp = loop[0]
-        r = ('var', lp.var)
-        step = ('bin', '-', ('bin', '-', n, r), ('num', 1))
-        st = [s for s in lp.body if s.k == 'assign' and s.target[0] == 'idx' and s.target[1] == ('var', 'dists_cond')]
-        inc = [s for s in lp.body if s.k == 'assign' and s.target == ('var', 'idx')]
-        ok = lp.lo == ('num', 0) and lp.hi == ('bin', '-', n, ('num', 1)) and len(st) == 1 and len(inc) == 1 \
-            and st[0].target[2] == ('slice', ('var', 'idx'), ('bin', '-', ('bin', '-', ('bin', '+', ('var', 'idx'), n), r), ('num', 1)), None) \
-            and st[0].value == ('idx', ('var', 'dists'), ('tuple', (r, ('slice', ('bin', '+', r, ('num', 1)), None, None)))) \
-            and inc[0].value == ('bin', '+', ('var', 'idx'), step) and st[0].line < inc[0].line
+        pex = Exec()
+        penv = Env()
+        from .iterspace import _run_until
+        _run_until(pex, lf.body, penv, lp)
+        benv = penv.copy()
+        for v_ in assigned_vars(lp.body):
+            benv[v_] = ('var', v_ + '@in')
+        benv[lp.var] = ('var', 'r')
+        bex = Exec()
+        out = bex.run(lp.body, benv)
+        atom = lambda e: 'N' if e == n else (e[1] if e[0] == 'var' else None)
+        T = lambda e: _sym.from_ir(e, atom=atom)
+        N, R_ = _sym.var('N'), _sym.var('r')
+        step = _sym.sub(_sym.sub(N, R_), _sym.const(1))
+        sts = [e for e in bex.events if e[0] == 'store' and e[2][0] == 'idx' and e[2][2][0] == 'slice']
+        try:
+            ok = T(subst_expr(lp.lo, penv)) == _sym.const(0) and T(subst_expr(lp.hi, penv)) == _sym.sub(N, _sym.const(1)) and len(sts) == 1 and out is not None
+            if ok:
+                tgt, val = sts[0][2], sts[0][3]
+                cnt = tgt[2][1]                                   # the running offset (as it enters the iteration)
+                ok = cnt[0] == 'var' and cnt[1].endswith('@in') and tgt[2][3] is None and _sym.sub(T(tgt[2][2]), T(cnt)) == step
+                ok = ok and val[0] == 'idx' and val[2] == ('tuple', (('var', 'r'), ('slice', ('bin', '+', ('var', 'r'), ('num', 1)), None, None)))
+                ok = ok and _sym.sub(T(out.get(cnt[1][:-3])), T(cnt)) == step
+                init = penv.get(cnt[1][:-3])
+                ok = ok and init == ('num', 0)
+        except _sym.Unsupported:
+            ok = False
     ctx.check(ok, 'R-ITER', file, 'LinkageTree.fit', 'condensed fill', 'the condensed vector must be filled row-major with dists[r, r+1:] at offsets advancing by n - r - 1 (SciPy order)', lf.line)
     pm, sc = _func(m, mod, 'LinkageTree._size_cond')
     ok = any(s.k == 'return' and fmt(s.value).replace(' ', '') == 'int(((n*(n-1))/2))' for s in sc.body)
@@ -1203,24 +1267,74 @@ def rule_series_container(ctx, m):
     ctx.check(nd >= 6, 'R-STRIDE', pm.path, 'SeriesContainer.__init__', 'detected_ndim on every constructor path',
               'expected detected_ndim to be set on the ndarray, list-of-arrays and list-of-lists paths (found %d stores)' % nd, f.line)
     pm, g = _func(m, 'dtaidistance.util', 'SeriesContainer.c_data_compat')
-    repl = [s for s in walk_stmts(g.body) if s.k == 'assign' and s.target[0] == 'idx' and s.target[1] == ('attr', ('var', 'self'), 'series')]
-    ok = bool(repl) and all(fmt(s.value) == 'serie' or 'order=' in fmt(s.value) for s in repl) and \
-        any('order=' in fmt(s.value) for s in walk_stmts(g.body) if s.k == 'assign' and (s.target == ('var', 'serie') or s in repl))
-    guard = any(s.k == 'if' and 'c_contiguous' in fmt(s.cond) for s in walk_stmts(g.body))
-    # every `if not X.flags.c_contiguous:` block makes a C-ordered copy AND installs it where the pointers are taken from (self.series / self.series[i])
-    blocks = [s for s in walk_stmts(g.body) if s.k == 'if' and 'c_contiguous' in fmt(s.cond) and fmt(s.cond).lstrip('(').startswith('not')]
-    okb = len(blocks) >= 2
-    for b in blocks:
-        copies = [t for t in b.then if t.k == 'assign' and ('order=' in fmt(t.value))]
-        installs = [t for t in b.then if t.k == 'assign' and fmt(t.target).startswith('self.series')]
-        okb = okb and bool(copies) and bool(installs) and (installs[0] is copies[0] or (copies[0].target[0] == 'var' and installs[0].value == copies[0].target))
-    ctx.check(ok and guard and okb, 'R-SAN', pm.path, 'SeriesContainer.c_data_compat', 'contiguity repair',
+    # path-sensitive: every store into self.series / self.series[i] is a C-ordered copy of the very object whose flags were found non-contiguous on that path,
+    # in the list branch (per element) and in the array branch (whole array)
+    from ..symexec import deep_events, Exec, Env
+    from .kern import _conj
+    selfs = ('attr', ('var', 'self'), 'series')
+
+    def contig_lit(c):
+        """(object, is_contiguous) when c tests <object>.flags.c_contiguous / <object>.data.c_contiguous (possibly negated)"""
+        neg = False
+        while c[0] == 'un' and c[1] == 'not':
+            c, neg = c[2], not neg
+        if c[0] == 'attr' and c[2] == 'c_contiguous' and c[1][0] == 'attr' and c[1][2] in ('flags', 'data'):
+            return c[1][1], not neg
+        return None
+
+    def c_copy_of(v):
+        """the object v is a C-ordered copy of, or None"""
+        if v[0] == 'call' and any(k_ == 'order' and a_ == ('str', 'C') for k_, a_ in v[3]):
+            d = (dotted(v[1]) or '').split('.')[-1]
+            if d in ('asarray', 'ascontiguousarray', 'array', 'require') and v[2]:
+                return v[2][0]
+            if d == 'copy' and v[1][0] == 'attr':
+                return v[1][1]
+        if v[0] == 'call' and (dotted(v[1]) or '').split('.')[-1] == 'ascontiguousarray' and v[2]:
+            return v[2][0]
+        return None
+    good = {'element': 0, 'whole': 0}
+    bad = []
+    for ev, lps in deep_events(g.body):
+        if ev[0] != 'store':
+            continue
+        tgt, val = ev[2], ev[3]
+        whole = tgt == selfs
+        elem = tgt[0] == 'idx' and tgt[1] == selfs
+        if not (whole or elem):
+            continue
+        lits = [l for l in (contig_lit(c) for c in _conj(ev[1])) if l is not None]
+        src = c_copy_of(val)
+        obj = tgt
+        if src is not None and any(o == src and not isc for o, isc in lits) and src == obj:
+            good['element' if elem else 'whole'] += 1
+        else:
+            bad.append(ev[4])
+    ctx.check(good['element'] >= 1 and good['whole'] >= 1 and not bad, 'R-SAN', pm.path, 'SeriesContainer.c_data_compat', 'contiguity repair',
               'non C-contiguous members must be replaced by C-ordered copies, and the copy must be stored back into self.series (the object the pointers are taken from), '
-              'in each of the list and array branches', g.line)
+              'in each of the list and array branches', (bad[0].line if bad else g.line))
     pm, v = _func(m, 'dtaidistance.util_numpy', 'verify_np_array')
-    ok = any(s.k == 'if' and 'c_contiguous' in fmt(s.cond) and any(t.k == 'assign' and "copy(order='C')" in fmt(t.value) for t in s.then) for s in walk_stmts(v.body))
-    ret = [s for s in v.body if s.k == 'return']
-    ctx.check(ok and bool(ret) and ret[-1].value == ('var', 'seq'), 'R-SAN', pm.path, 'verify_np_array', 'contiguity check', 'a non C-contiguous array must be replaced by seq.copy(order="C") and returned', v.line)
+    vex = Exec()
+    vex.run(v.body, Env())
+    seq = ('var', v.args[0])
+    ok = True
+    ncopy = 0
+    def leaves(val, path):
+        if val is not None and val[0] == 'cond':
+            yield from leaves(val[2], path + (val[1],))
+            yield from leaves(val[3], path + (('un', 'not', val[1]),))
+        else:
+            yield path, val
+    for path, val, st_ in [(p2, v2, st0) for p0, v0, st0 in vex.returns for p2, v2 in leaves(v0, tuple(p0))]:
+        if st_.k != 'return':
+            continue
+        lits = [l for l in (contig_lit(c) for c in _conj(path)) if l is not None]
+        if any(o == seq and not isc for o, isc in lits):
+            ok = ok and val is not None and c_copy_of(val) == seq
+            ncopy += 1
+        else:
+            ok = ok and val == seq
+    ctx.check(ok and ncopy >= 1, 'R-SAN', pm.path, 'verify_np_array', 'contiguity check', 'a non C-contiguous array must be replaced by seq.copy(order="C") and returned', v.line)
 
 
 # ------------------------------------------------------------------------------------------ Needleman-Wunsch border / empty rows
